@@ -231,6 +231,12 @@ def run_property(prop, tier, seed, replay_path, t0):
         coverage['facts_changed_note'] = ('regenerated facts differ from /verif/pinned/Facts.lean; the suites were also compared against the model built from the pinned facts'
                                           if stage.pinned else 'regenerated facts differ from the pinned facts; no pinned driver available')
     coverage.update(extra_info)
+    if discharged == 0:
+        # nothing was discharged in this run (the obligations no longer build): keep the file within the schema's
+        # fallback form and say so explicitly
+        del coverage['discharged']
+        coverage['obligations_discharged'] = 0
+        coverage['note'] = 'no proof obligation could be discharged in this run; see the replay file'
     ev = dict(property_id=prop, tier=tier, seed=seed, level=level, coverage=coverage,
               assumptions=runner.TRUSTED_BASE + cfg.get('trusted_extra', []),
               wall_s=round(time.time() - t0, 2), violations=len(violations) + len(problems))
